@@ -19,6 +19,8 @@ Open-handle programs: SFTPFile opened r+/w/w+/a/a+ with bufsize -1/0/1/2/16/4096
 write buffer, then truncate/chmod/chown/utime on the handle, more writes, close.  Oracle: the served file equals what
 a LOCAL file object gives for the same program; correspondence: the requests on the wire (WRITE offset/len before or
 after FSETSTAT) and the final file vs the model (lean/PV/Model/HandleProg.lean).
+The files' current modes include set-uid / set-gid bits (04755, 02755, 06711, 04750, 02644): the kernel clears them
+on an ownership change, so the full st_mode after a chown must equal the os.chown twin's (by path, by handle, via links).
 Value space: every numeric argument includes 0 and the boundaries (ids 0, 1, 2^31-1, 2^32-1; mode 0; times 0), and the
 file's current state differs from what is requested (files start owned by a random non-zero uid:gid when the run is
 root).  The request must be a function of the caller's arguments only: exactly one SETSTAT / FSETSTAT per operation
@@ -66,6 +68,15 @@ class Recorder:
     def truncate(self, filename, size, **kw):
         self.trace.append("truncate:%d%s" % (size, self._kw(kw)))
 
+    def stat(self, filename, *a, **kw):
+        # set_file_attr has no business reading the file's state; if it does, record it and answer like a plain file
+        self.trace.append("stat%s" % self._kw(kw))
+        return self._real.stat_result((0o100644, 1, 1, 1, 0, 0, 0, 0, 0, 0))
+
+    def lstat(self, filename, *a, **kw):
+        self.trace.append("lstat%s" % self._kw(kw))
+        return self._real.stat_result((0o100644, 1, 1, 1, 0, 0, 0, 0, 0, 0))
+
     @property
     def supports_follow_symlinks(self):
         # the stand-ins support what the real functions support, so code that asks gets the real answer
@@ -101,6 +112,8 @@ def recorded_set_file_attr(srvmod, attr):
             srvmod.SFTPServer.set_file_attr("/nonexistent/pv-c31", attr)
         except TypeError:
             return "err:type"
+        except Exception as e:  # anything else the recorded run trips over is a difference from the model, not a crash
+            return " ".join(rec.trace + ["raises:" + type(e).__name__])
     finally:
         srvmod.os = saved_os
         if had_open:
@@ -212,13 +225,14 @@ def handle_programs(ctx, lib, rng, A, n_prog, is_root):
                 name = "p%d" % j
                 served, twin = os.path.join(root, name), os.path.join(twin_root, name)
                 u0, g0 = (rng.randrange(1, 60000), rng.randrange(1, 60000)) if is_root else (os.geteuid(), os.getegid())
+                hmode0 = rng.choice([0o644, 0o600, 0o755, 0o640, 0o4755, 0o2755, 0o6711, 0o4750, 0o2644, 0o4755, 0o6755])
                 for p_ in (served, twin):
                     with open(p_, "wb") as f:
                         f.write(content0)
                     if is_root:
                         os.chown(p_, u0, g0)
-                    os.chmod(p_, 0o644)
-                case = {"initial_owner": [u0, g0], "initial": "%d bytes" % len(content0) if len(content0) > 16 else content0.hex(), "open_mode": mode,
+                    os.chmod(p_, hmode0)
+                case = {"initial_owner": [u0, g0], "initial_mode": oct(hmode0), "initial": "%d bytes" % len(content0) if len(content0) > 16 else content0.hex(), "open_mode": mode,
                         "bufsize": bufsize, "initial_size": len(content0),
                         "ops": [[k, len(v) if k == "w" else list(v) if isinstance(v, tuple) else v] for k, v in ops],
                         "program": [("write %s" % (v.hex() if len(v) <= 8 else "%d bytes" % len(v)) if k == "w" else
@@ -275,7 +289,8 @@ def handle_programs(ctx, lib, rng, A, n_prog, is_root):
                 else:
                     k_ = first_diff(want, got)
                     if k_ is not None:
-                        culprit = {"uid": "chown", "gid": "chown", "mode": "chmod"}.get(
+                        culprit = {"uid": "chown", "gid": "chown",
+                                   "mode": "chown-mode-bits" if any(k == "chown" for k, _ in ops) else "chmod"}.get(
                             k_, "truncate" if any(k == "t" for k, _ in ops) else kind)
                         ctx.fail("handle-%s-vs-buffered-writes:%s" % (culprit, "append" if append else "plain"), case,
                                  "%s differs: served %r, local file object %r" % (k_, show(got), show(want)))
@@ -341,6 +356,7 @@ def symlink_paths(ctx, lib, rng, n_cases, is_root):
                 u0, g0 = (rng.randrange(1, 60000), rng.randrange(1, 60000)) if is_root else (os.geteuid(), os.getegid())
                 t0 = (rng.randrange(1, 1 << 31), rng.randrange(1, 1 << 31))
                 tl = (rng.randrange(1, 1 << 31), rng.randrange(1, 1 << 31))
+                tmode0 = rng.choice([0o640, 0o4755, 0o2755, 0o6711, 0o4750, 0o2644])
                 names = {"file-link": "l%d" % j, "link-chain": "ll%d" % j, "dir-link": "ld%d" % j, "dangling": "dang%d" % j,
                          "plain-file": "t%d" % j}
                 for base in (root, twin_root):
@@ -355,7 +371,7 @@ def symlink_paths(ctx, lib, rng, n_cases, is_root):
                     for q in (tp, dp):
                         if is_root:
                             os.chown(q, u0, g0)
-                        os.chmod(q, 0o750 if q == dp else 0o640)
+                        os.chmod(q, (0o2750 if j % 2 else 0o750) if q == dp else tmode0)
                         os.utime(q, t0)
                     for ln in ("l%d", "ll%d", "ld%d", "dang%d"):
                         q = os.path.join(base, ln % j)
@@ -376,7 +392,7 @@ def symlink_paths(ctx, lib, rng, n_cases, is_root):
                 name = names[which]
                 case = {"op": kind, "args": list(args), "served_path": "/" + name, "path_is": which,
                         "layout": "t -> regular file; l -> t; ll -> l; d -> directory; ld -> d; dang -> (nothing)",
-                        "initial_owner": [u0, g0]}
+                        "initial_owner": [u0, g0], "initial_mode": oct(tmode0)}
                 sftp_err = twin_err = None
                 try:
                     getattr(client, kind)("/" + name, *args)
@@ -528,7 +544,9 @@ def run(ctx):
                     content = b"hello world"  # DESIGN.md section 7: truncating it to 5 must leave b"hello"
                     size = len(content)
                 name = "f%d" % i
-                mode0 = rng.choice([0o644, 0o600, 0o755, 0o640])
+                # the file's current mode includes set-uid / set-gid bits: the kernel clears them on an ownership change,
+                # so the FULL st_mode is part of what a chown must reproduce
+                mode0 = rng.choice([0o644, 0o600, 0o755, 0o640, 0o4755, 0o2755, 0o6711, 0o4750, 0o2644, 0o4755, 0o6755])
                 t0 = (rng.randrange(1, 1 << 31), rng.randrange(1, 1 << 31))
                 # the same name exists in the root, in /sub and in /sub/deep (decoys), on the served and the twin side
                 tdir = rng.choice(DIRS) if i else "/"
@@ -783,7 +801,7 @@ def replay_handle_program(d):
                 f.write(b"A" * d["initial_size"])
             if os.geteuid() == 0 and d.get("initial_owner"):
                 os.chown(p_, *d["initial_owner"])
-            os.chmod(p_, 0o644)
+            os.chmod(p_, int(d.get("initial_mode", "0o644"), 8))
         lmode = {"r+": "r+b", "r+b": "r+b", "w": "wb", "w+": "w+b", "a": "ab", "ab": "ab", "a+": "a+b"}[d["open_mode"]]
         with lib.Session(root=root) as s:
             fh = s.client.open("/p", d["open_mode"], d["bufsize"])
@@ -827,6 +845,8 @@ def replay_symlink(d):
             for q, follow in (("t", True), ("d", True), ("l", False), ("ll", False), ("ld", False), ("dang", False)):
                 if os.geteuid() == 0 and d.get("initial_owner"):
                     os.chown(os.path.join(base, q), *d["initial_owner"], follow_symlinks=follow)
+                if q == "t" and d.get("initial_mode"):
+                    os.chmod(os.path.join(base, q), int(d["initial_mode"], 8))
                 os.utime(os.path.join(base, q), (1000, 2000), follow_symlinks=follow)
         args = [tuple(a) if isinstance(a, list) else a for a in d["args"]]
         errs = []
